@@ -91,6 +91,7 @@ Inductive ty : Type :=
 Record env : Type := {
   comp_resource : nat -> bool;        (* composite c is a resource *)
   comp_conf : nat -> list nat;        (* effective interface conformance set of composite c *)
+  comp_enum : nat -> bool;            (* composite c is an enum (hashable) *)
   iface_resource : nat -> bool;       (* interface i is a resource interface *)
   iface_supers : nat -> list nat;     (* effective conformance set of interface i (inherited, transitive) *)
 }.
@@ -184,11 +185,11 @@ Definition chk_CapabilityPath (s : ty) : bool :=
 Definition chk_Path (s : ty) : bool :=
   isw chk_none PStoragePath s || isw chk_CapabilityPath PCapabilityPath s.
 
-(* sema.IsHashableStructType (enums are outside the fragment) *)
+(* sema.IsHashableStructType *)
 Definition is_hashable (s : ty) : bool :=
   match s with
   | TPrim PAddress => true
-  | TComp _ => false
+  | TComp c => comp_enum D c
   | _ =>
       if in_prims s [PNever; PBool; PCharacter; PString; PMetaType; PHashableStruct] then true
       else isw chk_Number PNumber s || isw chk_Path PPath s
